@@ -23,9 +23,13 @@ def run(rep, prop, tier, replay_name=None):
                 rep.violation(f"{prop}/model/{res.violation[1]}", f"TLC: {res.violation} in {cfg}", {"tlc_tail": res.out[-2500:]})
         elif res.error:
             rep.machinery_failure(f"TLC failed on {cfg}: {res.error}")
-    names = [replay_name] if replay_name else list(e2.SCENARIOS)
+    names = [replay_name] if replay_name else [n for n in e2.SCENARIOS if not n.startswith("full")]
     reps = 1 if replay_name else (2 if tier == "quick" else 12)
     jobs, results = token.run_scenarios(names, reps)
+    if not replay_name:
+        # real experiments (real schedulers, real jobs) sharing the token of the workspace connector
+        fj, fr = token.run_scenarios(["full_one_unit", "full_mixed"], 1 if tier == "quick" else 6, workers=4)
+        jobs, results = jobs + fj, results + fr
     verdicts, stats = token.validate(results)
     for e in stats["errors"][:2]:
         rep.machinery_failure("TLC failed on a token trace batch: " + e[-400:])
@@ -36,7 +40,12 @@ def run(rep, prop, tier, replay_name=None):
         rep.cov["evaluations"] += 1
         payload = {"token_scenario": name}
         for pr in r["problems"]:
-            rep.machinery_failure(f"token scenario {name}: {pr}")
+            if pr.startswith("observer") and prop == "C09":
+                rep.violation("C09/token-trace/observer-raised", f"scenario {name}: {pr} (an observer thread that raises dies: later releases go unnoticed)", payload)
+            elif pr.startswith(("experiment", "bodies", "body")) and prop == "C09":
+                rep.violation(f"C09/full-run/{pr.split(':')[0][:40]}", f"scenario {name}: {pr}", payload)
+            elif not pr.startswith(("observer", "experiment", "bodies", "body")):
+                rep.machinery_failure(f"token scenario {name}: {pr}")
         if v["accepted"]:
             rep.cov["traces_validated_against_impl"] += 1
             kinds.add((name, tuple(e["e"] for e in r["ev"] if e["e"].startswith(("tok.acq.fail", "tok.watch.reclaim", "h.kill", "tok.evt.deleted")))))
